@@ -324,15 +324,15 @@ Proof.
   revert lo. induction es as [|e r IH]; intros lo H.
   - cbn. destruct (0 <? ts); reflexivity.
   - pose proof (ksorted_tail_gt _ _ _ H) as Hgt. destruct H as [H1 H2]. cbn [filter alookup].
-    destruct (N.eqb_spec (fst e) k) as [->|Hne].
-    + assert (Hr : alookup r (fst e) = 0) by (apply alookup_notin; eapply keys_gt_ne; [exact Hgt|lia]).
+    destruct (N.eqb_spec (fst e) k) as [Heq|Hne].
+    + subst k. assert (Hr : alookup r (fst e) = 0) by (apply alookup_notin; eapply keys_gt_ne; [exact Hgt|lia]).
       unfold keep at 1. destruct (N.ltb_spec (snd e) ts); cbn [negb].
       * rewrite (IH _ H2), Hr. destruct (0 <? ts); reflexivity.
       * cbn [alookup]. rewrite N.eqb_refl. reflexivity.
     + destruct (keep ts e); [cbn [alookup]; destruct (N.eqb_spec (fst e) k); [congruence|]|]; apply (IH _ H2).
 Qed.
 
-Lemma sorted_last_decomp lo es : ksorted lo es -> es <> [] ->
+Lemma sorted_last_decomp lo (es : list (N * N)) : ksorted lo es -> es <> [] ->
   exists init vm, es = init ++ [(max_key es, vm)] /\ ksorted lo init /\ keys_lt (max_key es) init /\ lo < max_key es.
 Proof.
   intros Hs Hne. destruct (exists_last Hne) as (init & [mk vm] & ->).
@@ -353,6 +353,9 @@ Proof.
   unfold keys_lt. rewrite !Forall_forall. intros H x Hx. apply filter_In in Hx. apply H, Hx.
 Qed.
 
+Lemma filter_len_le {A} (p : A -> bool) l : (length (filter p l) <= length l)%nat.
+Proof. induction l as [|a l IH]; cbn; [lia|]. destruct (p a); cbn; lia. Qed.
+
 Lemma node_compact_spec lo es ts : ksorted lo es -> es <> [] ->
   let es' := fst (node_compact es ts) in
   ksorted lo es' /\ es' <> [] /\ max_key es' = max_key es /\
@@ -364,14 +367,15 @@ Proof.
   destruct (sorted_last_decomp lo es Hs Hne) as (init & vm & He & Hsi & Hlt & Hlo).
   set (mk := max_key es) in *.
   set (vm' := if vm <? ts then 0 else vm).
-  assert (Hes' : fst (node_compact es ts) = filter (keep ts) init ++ [(mk, vm')]).
-  { unfold node_compact. cbn [fst]. fold mk. rewrite He at 1. rewrite flat_map_app, (compact_init ts mk init Hlt).
+  assert (Hfm : flat_map (compact_entry ts mk) es = filter (keep ts) init ++ [(mk, vm')]).
+  { rewrite He at 1. rewrite flat_map_app, (compact_init ts mk init Hlt).
     f_equal. cbn [flat_map]. unfold compact_entry. cbn [fst snd]. unfold vm'.
     destruct (vm <? ts); [|reflexivity]. destruct (N.ltb_spec mk mk); [lia|reflexivity]. }
+  assert (Hes' : fst (node_compact es ts) = filter (keep ts) init ++ [(mk, vm')]).
+  { unfold node_compact. cbn [fst]. fold mk. exact Hfm. }
   cbv zeta. rewrite Hes'.
   split; [|split; [|split; [|split; [|split]]]].
-  - rewrite <- (app_nil_r (filter (keep ts) init)) at 1 || idtac.
-    apply (ksorted_insert lo (filter (keep ts) init) [] mk vm' Hlo (keys_lt_filter _ _ _ Hlt) I).
+  - apply (ksorted_insert lo (filter (keep ts) init) [] mk vm' Hlo (keys_lt_filter _ _ _ Hlt) I).
     rewrite app_nil_r. apply ksorted_filter. exact Hsi.
   - destruct (filter (keep ts) init); discriminate.
   - apply max_key_snoc.
@@ -384,15 +388,61 @@ Proof.
       * eapply keys_lt_ne; [apply keys_lt_filter; exact Hlt|lia].
     + rewrite !(alookup_app_r _ [_]) by (repeat constructor; cbn; congruence).
       apply (alookup_filter lo). exact Hsi.
-  - unfold node_compact. cbn [snd]. fold mk. rewrite He at 1. rewrite flat_map_app, (compact_init ts mk init Hlt).
-    cbn [flat_map]. unfold compact_entry at 1. cbn [fst snd]. fold vm'.
-    assert (Hlast : (if vm <? ts then if mk <? mk then [] else [(mk, 0)] else [(mk, vm)]) ++ [] = [(mk, vm')]).
-    { unfold vm'. destruct (vm <? ts); [|reflexivity]. destruct (N.ltb_spec mk mk); [lia|reflexivity]. }
-    rewrite Hlast.
+  - unfold node_compact. cbn [snd]. fold mk. rewrite !Hfm.
     destruct (filter (keep ts) init) as [|e1 r1] eqn:Ef.
     + cbn [app length]. rewrite N.eqb_refl. cbn [andb].
-      destruct (N.ltb_spec vm' ts) as [Hv|Hv]; [|discriminate]. intros _.
+      destruct (N.ltb_spec vm' ts) as [Hv|Hv]; [|cbn; intros Hx; discriminate Hx]. intros _.
       unfold vm' in *. destruct (N.ltb_spec vm ts); [reflexivity|lia].
-    + destruct r1; cbn [app length]; discriminate.
-  - rewrite He, !app_length. cbn [length]. pose proof (filter_length_le (keep ts) init). lia.
+    + destruct e1 as [k1 v1]. destruct r1; cbn; intros Hx; discriminate Hx.
+  - rewrite He, !app_length. cbn [length]. pose proof (filter_len_le (keep ts) init). lia.
+Qed.
+
+(* ---------- split ---------- *)
+Lemma ksorted_split {V} lo (es : list (N * V)) h :
+  ksorted lo es -> ksorted lo (firstn h es) /\ ksorted (last_key lo (firstn h es)) (skipn h es).
+Proof. intros H. rewrite <- (firstn_skipn h es) in H. apply ksorted_app in H. exact H. Qed.
+
+Lemma last_key_split {V} lo (es : list (N * V)) h :
+  last_key (last_key lo (firstn h es)) (skipn h es) = last_key lo es.
+Proof. rewrite <- last_key_app, firstn_skipn. reflexivity. Qed.
+
+Lemma last_key_lt_sorted {V} lo (pre : list (N * V)) x post :
+  ksorted lo (pre ++ x :: post) -> last_key lo pre < fst x.
+Proof. intros H. apply ksorted_app in H. destruct H as [_ [H _]]. exact H. Qed.
+
+(* strict: the last key of a proper prefix is below the last key of the whole *)
+Lemma last_key_firstn_lt {V} lo (es : list (N * V)) h : ksorted lo es -> (h < length es)%nat ->
+  last_key lo (firstn h es) < last_key lo es.
+Proof.
+  intros Hs Hh. rewrite <- (last_key_split lo es h).
+  destruct (ksorted_split lo es h Hs) as [_ H2].
+  destruct (skipn h es) as [|x r] eqn:E.
+  - apply (f_equal (@length _)) in E. rewrite skipn_length in E. cbn in E. lia.
+  - cbn [last_key]. destruct H2 as [H2 H3]. pose proof (last_key_ge _ _ H3). lia.
+Qed.
+
+(* ---------- IterateKV on a leaf ---------- *)
+Definition upd_val (f : N -> N -> N) (k v : N) : N :=
+  if v =? 0 then 0 else if f k v =? 0 then v else f k v.
+
+Lemma iter_entry_fst f e : fst (iter_entry f e) = fst e.
+Proof. unfold iter_entry. destruct (snd e =? 0); [reflexivity|]. destruct (f (fst e) (snd e) =? 0); reflexivity. Qed.
+
+Lemma ksorted_map_keys {V W} lo (g : N * V -> N * W) es : (forall e, fst (g e) = fst e) ->
+  ksorted lo es -> ksorted lo (map g es).
+Proof.
+  intros Hg. revert lo. induction es as [|e r IH]; intros lo H; [exact I|].
+  destruct H as [H1 H2]. cbn [map ksorted]. rewrite Hg. split; [exact H1|apply IH; exact H2].
+Qed.
+
+Lemma last_key_map_keys {V W} lo (g : N * V -> N * W) es : (forall e, fst (g e) = fst e) ->
+  last_key lo (map g es) = last_key lo es.
+Proof. intros Hg. revert lo. induction es as [|e r IH]; intros lo; cbn [map last_key]; [reflexivity|]. rewrite Hg. apply IH. Qed.
+
+Lemma alookup_iter f es k : alookup (map (iter_entry f) es) k = upd_val f k (alookup es k).
+Proof.
+  induction es as [|e r IH]; [reflexivity|]. cbn [map alookup]. rewrite iter_entry_fst.
+  destruct (N.eqb_spec (fst e) k) as [<-|Hne]; [|exact IH].
+  unfold iter_entry, upd_val. destruct (snd e =? 0) eqn:E0; [apply N.eqb_eq in E0; exact E0|].
+  destruct (f (fst e) (snd e) =? 0); reflexivity.
 Qed.
